@@ -741,7 +741,8 @@ func recordedAnswers(file string) []string {
 	var ans []string
 	for _, l := range strings.Split(string(b), "\n") {
 		if strings.HasPrefix(l, "; => ") {
-			ans = append(ans, strings.TrimPrefix(l, "; => "))
+			// "sat (fallback)": decided by the fallback chain, same answer space
+			ans = append(ans, strings.TrimSuffix(strings.TrimPrefix(l, "; => "), " (fallback)"))
 		}
 	}
 	return ans
